@@ -19,6 +19,12 @@ inline int atomicDec(volatile int* x) { return --*x; }
 inline int atomicInc(volatile int* x) { return InterlockedIncrement((long*)(x)); }
 inline int atomicDec(volatile int* x) { return InterlockedDecrement((long*)(x)); }
 
+#elif defined(ASL_VERIF) && (__has_builtin(__sync_add_and_fetch) || (defined(__GNUC__) && ASL_C_VER >= 40102))
+
+// same primitives as the branch below, announced to the verification hook first
+inline int atomicInc(int volatile* x) { asl_verif_point(1, x); return __sync_add_and_fetch(x, 1); }
+inline int atomicDec(int volatile* x) { asl_verif_point(2, x); return __sync_sub_and_fetch(x, 1); }
+
 #elif __has_builtin(__sync_add_and_fetch) || (defined(__GNUC__) && ASL_C_VER >= 40102)
 
 inline int atomicInc(int volatile* x) { return __sync_add_and_fetch(x, 1); }
